@@ -58,7 +58,7 @@ func identsOf(x ast.Expr, out map[string]bool) {
 				if fn != nil && fn.Name == "setf" && i == 1 {
 					continue // field name
 				}
-				if fn != nil && (fn.Name == "smt" || fn.Name == "unmarshal" || fn.Name == "zero" || fn.Name == "jsonok" || fn.Name == "jsondec") && i == 0 {
+				if fn != nil && (fn.Name == "smt" || fn.Name == "unmarshal" || fn.Name == "zero" || fn.Name == "jsonok" || fn.Name == "jsondec" || fn.Name == "gocall") && i == 0 {
 					continue // sort name literal
 				}
 				walk(a, nb)
